@@ -15,7 +15,7 @@ from . import spec as S
 from .source import Repo, strip_docstring, fn_fingerprint, SourceError
 from .values import *  # noqa
 
-FEAS_TIMEOUT_MS = 1500
+FEAS_TIMEOUT_MS = 500
 MAX_PATHS = 4000
 MAX_CALL_DEPTH = 40
 
